@@ -21,7 +21,7 @@ theorem pyEq_str (s r r' : Str) : pyEq (.str s r) (.str s r') = true := by
   simp [pyEq, leafEq, numOf]
 theorem pyEq_bytes (c c' : ClsRef) (r : Str) : pyEq (.bytes c r) (.bytes c' r) = true := by
   simp [pyEq, leafEq, numOf]
-theorem pyEq_qname (t : Str) : pyEq (.qname t) (.qname t) = true := by
+theorem pyEq_qname (t r r' : Str) : pyEq (.qname t r) (.qname t r') = true := by
   simp [pyEq, leafEq, numOf]
 theorem pyEq_enum (c : ClsRef) (m : Str) : pyEq (.enum c m) (.enum c m) = true := by
   simp [pyEq, leafEq, numOf]
@@ -55,7 +55,7 @@ theorem hashable_of_pyEq : (a b : Val) → pyEq a b = true → hashable b = true
   | .float _ _, _, _, _ => by simp [hashable]
   | .str _ _, _, _, _ => by simp [hashable]
   | .bytes _ _, _, _, _ => by simp [hashable]
-  | .qname _, _, _, _ => by simp [hashable]
+  | .qname _ _, _, _, _ => by simp [hashable]
   | .opaque _ _ _ _, _, _, _ => by simp [hashable]
   | .enum _ _, _, _, _ => by simp [hashable]
 theorem hashableL_of_pyEqL : (xs ys : List Val) → pyEqL xs ys = true → hashableL ys = true → hashableL xs = true
@@ -187,32 +187,32 @@ theorem EnvGood.append_right {W : World} {env : Env} {a b : List (List Str × Cl
   fun pc hp => h pc (List.mem_append.mpr (Or.inr hp))
 
 /-- round trip of one value -/
-def RT (W : World) (env : Env) (v : Val) : Prop :=
-  wf W v = true → valOK W v = true → EnvGood W env (render W v).refs →
-    ∃ v', eval W env (render W v) = .ok v' ∧ pyEq v' v = true
+def RT (cfg : Cfg) (W : World) (env : Env) (v : Val) : Prop :=
+  wf W v = true → valOK cfg W v = true → EnvGood W env ((render W v).refs cfg) →
+    ∃ v', eval cfg W env (render W v) = .ok v' ∧ pyEq v' v = true
 
-theorem evalKw_select (W : World) (env : Env) : ∀ (fs : List FieldSpec) (attrs : List Val),
-    (∀ a ∈ attrs, RT W env a) → wfL W attrs = true → valOKL W attrs = true →
-    EnvGood W env (refsKw (selectKw fs attrs (renderL W attrs))) →
-    ∃ kv, evalKw W env (selectKw fs attrs (renderL W attrs)) = .ok kv ∧ KwRel fs attrs kv
+theorem evalKw_select (cfg : Cfg) (W : World) (env : Env) : ∀ (fs : List FieldSpec) (attrs : List Val),
+    (∀ a ∈ attrs, RT cfg W env a) → wfL W attrs = true → valOKL cfg W attrs = true →
+    EnvGood W env (refsKw cfg (selectKw fs attrs (renderL W attrs))) →
+    ∃ kv, evalKw cfg W env (selectKw fs attrs (renderL W attrs)) = .ok kv ∧ KwRel fs attrs kv
   | [], attrs, _, _, _, _ => by
       cases attrs <;> exact ⟨[], by simp [selectKw, evalKw], by simp [KwRel]⟩
   | f :: fs, [], _, _, _, _ => ⟨[], by simp [selectKw, evalKw], by simp [KwRel]⟩
   | f :: fs, a :: as, hrt, hwf, hok, henv => by
       have hwf' : wf W a = true ∧ wfL W as = true := by simpa [wfL] using hwf
-      have hok' : valOK W a = true ∧ valOKL W as = true := by simpa [valOKL] using hok
-      have hrt' : ∀ x ∈ as, RT W env x := fun x hx => hrt x (by simp [hx])
+      have hok' : valOK cfg W a = true ∧ valOKL cfg W as = true := by simpa [valOKL] using hok
+      have hrt' : ∀ x ∈ as, RT cfg W env x := fun x hx => hrt x (by simp [hx])
       by_cases hsel : (f.init && !(elide f.dflt a)) = true
       · have hs : selectKw (f :: fs) (a :: as) (renderL W (a :: as))
             = (f.name, render W a) :: selectKw fs as (renderL W as) := by
           simp [selectKw, renderL, hsel]
         rw [hs] at henv ⊢
-        have henv1 : EnvGood W env (render W a).refs := by
+        have henv1 : EnvGood W env ((render W a).refs cfg) := by
           simp only [refsKw] at henv; exact henv.append_left
-        have henv2 : EnvGood W env (refsKw (selectKw fs as (renderL W as))) := by
+        have henv2 : EnvGood W env (refsKw cfg (selectKw fs as (renderL W as))) := by
           simp only [refsKw] at henv; exact henv.append_right
         obtain ⟨a', he, hp⟩ := hrt a (by simp) hwf'.1 hok'.1 henv1
-        obtain ⟨kv', hk, hr⟩ := evalKw_select W env fs as hrt' hwf'.2 hok'.2 henv2
+        obtain ⟨kv', hk, hr⟩ := evalKw_select cfg W env fs as hrt' hwf'.2 hok'.2 henv2
         refine ⟨(f.name, a') :: kv', by simp [evalKw, he, hk], ?_⟩
         unfold KwRel
         rw [if_pos hsel]
@@ -221,7 +221,7 @@ theorem evalKw_select (W : World) (env : Env) : ∀ (fs : List FieldSpec) (attrs
             = selectKw fs as (renderL W as) := by
           simp [selectKw, renderL, hsel]
         rw [hs] at henv ⊢
-        obtain ⟨kv', hk, hr⟩ := evalKw_select W env fs as hrt' hwf'.2 hok'.2 henv
+        obtain ⟨kv', hk, hr⟩ := evalKw_select cfg W env fs as hrt' hwf'.2 hok'.2 henv
         refine ⟨kv', hk, ?_⟩
         unfold KwRel
         rw [if_neg hsel]
@@ -239,8 +239,8 @@ theorem fieldsOf_of_isModelWith {W : World} {c : ClsRef} {n : Nat} (h : isModelW
   · simp at h
 
 /-- the `repr_model` case: constructor call with the selected keywords -/
-theorem rt_model (W : World) (env : Env) (c : ClsRef) (attrs : List Val)
-    (hrt : ∀ a ∈ attrs, RT W env a) : RT W env (.model c attrs) := by
+theorem rt_model (cfg : Cfg) (W : World) (env : Env) (c : ClsRef) (attrs : List Val)
+    (hrt : ∀ a ∈ attrs, RT cfg W env a) : RT cfg W env (.model c attrs) := by
   intro hwf hok henv
   simp only [wf, Bool.and_eq_true] at hwf
   obtain ⟨⟨⟨hmod, _⟩, _⟩, hwfL⟩ := hwf
@@ -249,9 +249,9 @@ theorem rt_model (W : World) (env : Env) (c : ClsRef) (attrs : List Val)
   obtain ⟨r, hfind, hlen, hnd⟩ := fieldsOf_of_isModelWith hmod
   simp only [render, PyExpr.refs] at henv ⊢
   have hres : resolve W env c.path = .ok c := henv (c.path, c) (by simp)
-  have henv' : EnvGood W env (refsKw (selectKw (W.fieldsOf c) attrs (renderL W attrs))) :=
+  have henv' : EnvGood W env (refsKw cfg (selectKw (W.fieldsOf c) attrs (renderL W attrs))) :=
     fun pc hp => henv pc (by simp [hp])
-  obtain ⟨kv, hkv, hrel⟩ := evalKw_select W env (W.fieldsOf c) attrs hrt hwfL hokL henv'
+  obtain ⟨kv, hkv, hrel⟩ := evalKw_select cfg W env (W.fieldsOf c) attrs hrt hwfL hokL henv'
   obtain ⟨attrs', hcon, heq⟩ := construct_rel (W.fieldsOf c) attrs kv kv hlen hnd hinit hrel (fun _ _ => rfl)
   refine ⟨.model c attrs', ?_, ?_⟩
   · simp [eval, hres, hkv, hfind, kwNamesOK_of_rel hrel, hcon]
@@ -265,17 +265,17 @@ theorem decodeDq_plain : ∀ (t : Str), plainDq t = true → decodeDq false t = 
         simpa [plainDq, List.all_cons] using h
       simp [decodeDq, h'.1.1, h'.1.2, decodeDq_plain r h'.2]
 
-def RTL (W : World) (env : Env) (xs : List Val) : Prop :=
-  wfL W xs = true → valOKL W xs = true → EnvGood W env (refsL (renderL W xs)) →
-    ∃ vs, evalL W env (renderL W xs) = .ok vs ∧ pyEqL vs xs = true
+def RTL (cfg : Cfg) (W : World) (env : Env) (xs : List Val) : Prop :=
+  wfL W xs = true → valOKL cfg W xs = true → EnvGood W env (refsL cfg (renderL W xs)) →
+    ∃ vs, evalL cfg W env (renderL W xs) = .ok vs ∧ pyEqL vs xs = true
 
-def RTKV (W : World) (env : Env) (kvs : List (Val × Val)) : Prop :=
-  wfKV W kvs = true → valOKKV W kvs = true → EnvGood W env (refsKV (renderKV W kvs)) →
-    ∃ ps, evalKV W env (renderKV W kvs) = .ok ps ∧ pyEqKV ps kvs = true
+def RTKV (cfg : Cfg) (W : World) (env : Env) (kvs : List (Val × Val)) : Prop :=
+  wfKV W kvs = true → valOKKV cfg W kvs = true → EnvGood W env (refsKV cfg (renderKV W kvs)) →
+    ∃ ps, evalKV cfg W env (renderKV W kvs) = .ok ps ∧ pyEqKV ps kvs = true
       ∧ ps.all (fun p => hashable p.1) = true
 
 mutual
-theorem rt (W : World) (env : Env) : (v : Val) → RT W env v
+theorem rt (cfg : Cfg) (W : World) (env : Env) : (v : Val) → RT cfg W env v
   | .none => fun _ _ _ => ⟨.none, by simp [render, eval], pyEq_none⟩
   | .bool b => fun _ _ _ => ⟨.bool b, by simp [render, eval], pyEq_bool b⟩
   | .int i => fun _ _ _ => ⟨.int i, by simp [render, eval], pyEq_int i⟩
@@ -289,19 +289,21 @@ theorem rt (W : World) (env : Env) : (v : Val) → RT W env v
           henv ([floatCallee], floatT) (by simp [render, hf, PyExpr.refs])
         simp [render, hf, eval, hres]
       · simp [render, hf, eval]
-  | .qname t => fun _ hok henv => by
-      have hp : plainDq t = true := by simpa [valOK] using hok
+  | .qname t r => fun _ hok henv => by
       have hres : resolve W env [qnameCallee] = .ok qnameT :=
         henv ([qnameCallee], qnameT) (by simp [render, PyExpr.refs])
-      exact ⟨.qname t, by simp [render, eval, hres, decodeDq_plain t hp], pyEq_qname t⟩
+      cases hq : cfg.qnameFix
+      · have hp : plainDq t = true := by simpa [valOK, hq] using hok
+        exact ⟨.qname t r, by simp [render, eval, hres, hq, decodeDq_plain t hp], pyEq_qname t r r⟩
+      · exact ⟨.qname t r, by simp [render, eval, hres, hq], pyEq_qname t r r⟩
   | .opaque c callee args n => fun _ hok henv => by
       have hp : notNan n = true ∧ callee = c.path := by simpa [valOK] using hok
       have hres : resolve W env callee = .ok c :=
         henv (callee, c) (by simp [render, PyExpr.refs])
       exact ⟨.opaque c callee args n, by simp [render, eval, hres], pyEq_opaque _ _ _ _ hp.1⟩
   | .enum c m => fun hwf _ henv => by
-      have hres : resolve W env (enumNames c) = .ok c :=
-        henv (enumNames c, c) (by simp [render, PyExpr.refs])
+      have hres : resolve W env (enumNames cfg c) = .ok c :=
+        henv (enumNames cfg c, c) (by simp [render, PyExpr.refs])
       have hw : isEnumWith W c m = true := by
         simp only [wf, Bool.and_eq_true] at hwf; exact hwf.1.1
       unfold isEnumWith at hw
@@ -311,43 +313,50 @@ theorem rt (W : World) (env : Env) : (v : Val) → RT W env v
         exact ⟨.enum c m, by simp [render, eval, hres, hfind, hm], pyEq_enum c m⟩
       · simp at hw
   | .list xs => fun hwf hok henv => by
-      obtain ⟨vs, he, hp⟩ := rtL W env xs (by simpa [wf] using hwf) (by simpa [valOK] using hok)
+      obtain ⟨vs, he, hp⟩ := rtL cfg W env xs (by simpa [wf] using hwf) (by simpa [valOK] using hok)
         (by simpa [render, PyExpr.refs] using henv)
       exact ⟨.list vs, by simp [render, eval, he], by simp [pyEq, hp]⟩
-  | .tuple xs => fun _ hok _ => by
-      have : xs = [] := by simpa [valOK] using hok
-      subst this
-      exact ⟨.tuple [], by simp [render, renderL, eval, evalL], by simp [pyEq, pyEqL]⟩
+  | .tuple xs => fun hwf hok henv => by
+      have hok' : (cfg.tupleFix = true ∨ xs = []) ∧ valOKL cfg W xs = true := by simpa [valOK] using hok
+      obtain ⟨vs, he, hp⟩ := rtL cfg W env xs (by simpa [wf] using hwf) hok'.2
+        (by simpa [render, PyExpr.refs] using henv)
+      refine ⟨.tuple vs, ?_, by simp [pyEq, hp]⟩
+      rcases hok'.1 with ht | hx
+      · simp [render, eval, he, ht]
+      · subst hx
+        simp only [renderL, evalL] at he
+        cases he
+        simp [render, renderL, eval, evalL]
   | .dict kvs => fun hwf hok henv => by
-      obtain ⟨ps, he, hp, hh⟩ := rtKV W env kvs (by simpa [wf] using hwf) (by simpa [valOK] using hok)
+      obtain ⟨ps, he, hp, hh⟩ := rtKV cfg W env kvs (by simpa [wf] using hwf) (by simpa [valOK] using hok)
         (by simpa [render, PyExpr.refs] using henv)
       exact ⟨.dict ps, by simp [render, eval, he, hh], by simp [pyEq, hp]⟩
-  | .model c attrs => rt_model W env c attrs (rtA W env attrs)
-theorem rtA (W : World) (env : Env) : (xs : List Val) → ∀ a ∈ xs, RT W env a
+  | .model c attrs => rt_model cfg W env c attrs (rtA cfg W env attrs)
+theorem rtA (cfg : Cfg) (W : World) (env : Env) : (xs : List Val) → ∀ a ∈ xs, RT cfg W env a
   | [], _, h => by cases h
   | x :: xs, a, h => by
       cases h with
-      | head => exact rt W env x
-      | tail _ h' => exact rtA W env xs a h'
-theorem rtL (W : World) (env : Env) : (xs : List Val) → RTL W env xs
+      | head => exact rt cfg W env x
+      | tail _ h' => exact rtA cfg W env xs a h'
+theorem rtL (cfg : Cfg) (W : World) (env : Env) : (xs : List Val) → RTL cfg W env xs
   | [] => fun _ _ _ => ⟨[], by simp [renderL, evalL], by simp [pyEqL]⟩
   | x :: xs => fun hwf hok henv => by
       have hwf' : wf W x = true ∧ wfL W xs = true := by simpa [wfL] using hwf
-      have hok' : valOK W x = true ∧ valOKL W xs = true := by simpa [valOKL] using hok
+      have hok' : valOK cfg W x = true ∧ valOKL cfg W xs = true := by simpa [valOKL] using hok
       simp only [renderL, refsL] at henv
-      obtain ⟨v', he, hp⟩ := rt W env x hwf'.1 hok'.1 henv.append_left
-      obtain ⟨vs, hes, hps⟩ := rtL W env xs hwf'.2 hok'.2 henv.append_right
+      obtain ⟨v', he, hp⟩ := rt cfg W env x hwf'.1 hok'.1 henv.append_left
+      obtain ⟨vs, hes, hps⟩ := rtL cfg W env xs hwf'.2 hok'.2 henv.append_right
       exact ⟨v' :: vs, by simp [renderL, evalL, he, hes], by simp [pyEqL, hp, hps]⟩
-theorem rtKV (W : World) (env : Env) : (kvs : List (Val × Val)) → RTKV W env kvs
+theorem rtKV (cfg : Cfg) (W : World) (env : Env) : (kvs : List (Val × Val)) → RTKV cfg W env kvs
   | [] => fun _ _ _ => ⟨[], by simp [renderKV, evalKV], by simp [pyEqKV], by simp⟩
   | (k, v) :: r => fun hwf hok henv => by
       have hwf' : (wf W k = true ∧ wf W v = true) ∧ wfKV W r = true := by simpa [wfKV] using hwf
-      have hok' : ((hashable k = true ∧ valOK W k = true) ∧ valOK W v = true) ∧ valOKKV W r = true := by
+      have hok' : ((hashable k = true ∧ valOK cfg W k = true) ∧ valOK cfg W v = true) ∧ valOKKV cfg W r = true := by
         simpa [valOKKV] using hok
       simp only [renderKV, refsKV] at henv
-      obtain ⟨k', hek, hpk⟩ := rt W env k hwf'.1.1 hok'.1.1.2 henv.append_left.append_left
-      obtain ⟨v', hev, hpv⟩ := rt W env v hwf'.1.2 hok'.1.2 henv.append_left.append_right
-      obtain ⟨ps, hes, hps, hhs⟩ := rtKV W env r hwf'.2 hok'.2 henv.append_right
+      obtain ⟨k', hek, hpk⟩ := rt cfg W env k hwf'.1.1 hok'.1.1.2 henv.append_left.append_left
+      obtain ⟨v', hev, hpv⟩ := rt cfg W env v hwf'.1.2 hok'.1.2 henv.append_left.append_right
+      obtain ⟨ps, hes, hps, hhs⟩ := rtKV cfg W env r hwf'.2 hok'.2 henv.append_right
       have hk : hashable k' = true := hashable_of_pyEq k' k hpk hok'.1.1.1
       exact ⟨(k', v') :: ps, by simp [renderKV, evalKV, hek, hev, hes], by simp [pyEqKV, hpk, hpv, hps],
         by simp [hk, hhs]⟩
@@ -502,18 +511,18 @@ theorem resolve_of_good {W : World} {ts : List ClsRef} {pc : List Str × ClsRef}
 
 mutual
 /-- every class a reference means was collected into `types` -/
-theorem refs_sub_types : (e : PyExpr) → ∀ pc ∈ e.refs, pc.2 ∈ e.types
+theorem refs_sub_types (cfg : Cfg) : (e : PyExpr) → ∀ pc ∈ e.refs cfg, pc.2 ∈ e.types
   | .lit _ _ _, pc, h => by simp [PyExpr.refs] at h
   | .arr _ xs, pc, h => by
       simp only [PyExpr.refs] at h
       simp only [PyExpr.types, List.mem_cons]
-      exact Or.inr (refsL_sub_types xs pc h)
+      exact Or.inr (refsL_sub_types cfg xs pc h)
   | .dict kvs, pc, h => by
       simp only [PyExpr.refs] at h
       simp only [PyExpr.types, List.mem_cons]
-      exact Or.inr (refsKV_sub_types kvs pc h)
+      exact Or.inr (refsKV_sub_types cfg kvs pc h)
   | .floatCall _ _, pc, h => by simp [PyExpr.refs] at h; simp [PyExpr.types, h]
-  | .qnameCall _, pc, h => by simp [PyExpr.refs] at h; simp [PyExpr.types, h]
+  | .qnameCall _ _, pc, h => by simp [PyExpr.refs] at h; simp [PyExpr.types, h]
   | .opaqueCall _ _ _ _, pc, h => by simp [PyExpr.refs] at h; simp [PyExpr.types, h]
   | .enumRef _ _, pc, h => by simp [PyExpr.refs] at h; simp [PyExpr.types, h]
   | .call c kws, pc, h => by
@@ -521,36 +530,36 @@ theorem refs_sub_types : (e : PyExpr) → ∀ pc ∈ e.refs, pc.2 ∈ e.types
       simp only [PyExpr.types, List.mem_cons]
       rcases h with h | h
       · exact Or.inl (by simp [h])
-      · exact Or.inr (refsKw_sub_types kws pc h)
-theorem refsL_sub_types : (xs : List PyExpr) → ∀ pc ∈ refsL xs, pc.2 ∈ typesL xs
+      · exact Or.inr (refsKw_sub_types cfg kws pc h)
+theorem refsL_sub_types (cfg : Cfg) : (xs : List PyExpr) → ∀ pc ∈ refsL cfg xs, pc.2 ∈ typesL xs
   | [], pc, h => by simp [refsL] at h
   | x :: xs, pc, h => by
       simp only [refsL, List.mem_append] at h
       simp only [typesL, List.mem_append]
       rcases h with h | h
-      · exact Or.inl (refs_sub_types x pc h)
-      · exact Or.inr (refsL_sub_types xs pc h)
-theorem refsKV_sub_types : (kvs : List (PyExpr × PyExpr)) → ∀ pc ∈ refsKV kvs, pc.2 ∈ typesKV kvs
+      · exact Or.inl (refs_sub_types cfg x pc h)
+      · exact Or.inr (refsL_sub_types cfg xs pc h)
+theorem refsKV_sub_types (cfg : Cfg) : (kvs : List (PyExpr × PyExpr)) → ∀ pc ∈ refsKV cfg kvs, pc.2 ∈ typesKV kvs
   | [], pc, h => by simp [refsKV] at h
   | (k, v) :: r, pc, h => by
       simp only [refsKV, List.mem_append] at h
       simp only [typesKV, List.mem_append]
       rcases h with (h | h) | h
-      · exact Or.inl (Or.inl (refs_sub_types k pc h))
-      · exact Or.inl (Or.inr (refs_sub_types v pc h))
-      · exact Or.inr (refsKV_sub_types r pc h)
-theorem refsKw_sub_types : (kws : List (Str × PyExpr)) → ∀ pc ∈ refsKw kws, pc.2 ∈ typesKw kws
+      · exact Or.inl (Or.inl (refs_sub_types cfg k pc h))
+      · exact Or.inl (Or.inr (refs_sub_types cfg v pc h))
+      · exact Or.inr (refsKV_sub_types cfg r pc h)
+theorem refsKw_sub_types (cfg : Cfg) : (kws : List (Str × PyExpr)) → ∀ pc ∈ refsKw cfg kws, pc.2 ∈ typesKw kws
   | [], pc, h => by simp [refsKw] at h
   | (_, e) :: r, pc, h => by
       simp only [refsKw, List.mem_append] at h
       simp only [typesKw, List.mem_append]
       rcases h with h | h
-      · exact Or.inl (refs_sub_types e pc h)
-      · exact Or.inr (refsKw_sub_types r pc h)
+      · exact Or.inl (refs_sub_types cfg e pc h)
+      · exact Or.inr (refsKw_sub_types cfg r pc h)
 end
 
-theorem mem_refsKw_select (W : World) : ∀ (fs : List FieldSpec) (as : List Val) (pc : List Str × ClsRef),
-    pc ∈ refsKw (selectKw fs as (renderL W as)) → ∃ a ∈ as, pc ∈ (render W a).refs
+theorem mem_refsKw_select (cfg : Cfg) (W : World) : ∀ (fs : List FieldSpec) (as : List Val) (pc : List Str × ClsRef),
+    pc ∈ refsKw cfg (selectKw fs as (renderL W as)) → ∃ a ∈ as, pc ∈ ((render W a).refs cfg)
   | [], as, pc, h => by cases as <;> simp [selectKw, refsKw] at h
   | f :: fs, [], pc, h => by simp [selectKw, refsKw] at h
   | f :: fs, a :: as, pc, h => by
@@ -559,9 +568,9 @@ theorem mem_refsKw_select (W : World) : ∀ (fs : List FieldSpec) (as : List Val
       · simp only [refsKw, List.mem_append] at h
         rcases h with h | h
         · exact ⟨a, by simp, h⟩
-        · obtain ⟨x, hx, hp⟩ := mem_refsKw_select W fs as pc h
+        · obtain ⟨x, hx, hp⟩ := mem_refsKw_select cfg W fs as pc h
           exact ⟨x, by simp [hx], hp⟩
-      · obtain ⟨x, hx, hp⟩ := mem_refsKw_select W fs as pc h
+      · obtain ⟨x, hx, hp⟩ := mem_refsKw_select cfg W fs as pc h
         exact ⟨x, by simp [hx], hp⟩
 
 theorem reachable_single (W : World) (m h : Str) : reachable W ⟨m, [h]⟩ = true := by
@@ -575,19 +584,19 @@ theorem wfL_mem {W : World} : ∀ {xs : List Val} {a : Val}, wfL W xs = true →
       | head => exact hw'.1
       | tail _ h' => exact wfL_mem hw'.2 h'
 
-theorem valOKL_mem {W : World} : ∀ {xs : List Val} {a : Val}, valOKL W xs = true → a ∈ xs → valOK W a = true
+theorem valOKL_mem {cfg : Cfg} {W : World} : ∀ {xs : List Val} {a : Val}, valOKL cfg W xs = true → a ∈ xs → valOK cfg W a = true
   | [], _, _, h => by cases h
   | x :: xs, a, hw, h => by
-      have hw' : valOK W x = true ∧ valOKL W xs = true := by simpa [valOKL] using hw
+      have hw' : valOK cfg W x = true ∧ valOKL cfg W xs = true := by simpa [valOKL] using hw
       cases h with
       | head => exact hw'.1
       | tail _ h' => exact valOKL_mem hw'.2 h'
 
-def RefsGood (W : World) (v : Val) : Prop :=
-  wf W v = true → valOK W v = true → ∀ pc ∈ (render W v).refs, RefGood W pc
+def RefsGood (cfg : Cfg) (W : World) (v : Val) : Prop :=
+  wf W v = true → valOK cfg W v = true → ∀ pc ∈ ((render W v).refs cfg), RefGood W pc
 
 mutual
-theorem refs_good (W : World) : (v : Val) → RefsGood W v
+theorem refs_good (cfg : Cfg) (W : World) : (v : Val) → RefsGood cfg W v
   | .none => fun _ _ pc h => by simp [render, PyExpr.refs] at h
   | .bool _ => fun _ _ pc h => by simp [render, PyExpr.refs] at h
   | .int _ => fun _ _ pc h => by simp [render, PyExpr.refs] at h
@@ -599,7 +608,7 @@ theorem refs_good (W : World) : (v : Val) → RefsGood W v
         subst h
         exact ⟨by simp [floatCallee_eq]; rfl, reachable_single W _ _, Or.inr rfl⟩
       · simp [render, hf, PyExpr.refs] at h
-  | .qname t => fun _ _ pc h => by
+  | .qname t r => fun _ _ pc h => by
       simp [render, PyExpr.refs] at h
       subst h
       exact ⟨by simp [qnameCallee_eq]; rfl, reachable_single W _ _, Or.inl (by simpa using qname_not_builtin)⟩
@@ -612,26 +621,28 @@ theorem refs_good (W : World) : (v : Val) → RefsGood W v
   | .enum c m => fun hwf hok pc h => by
       simp [render, PyExpr.refs] at h
       subst h
-      have hp : c.path.length = 1 := by simpa [valOK] using hok
+      have hp : cfg.enumFix = true ∨ c.path.length = 1 := by simpa [valOK] using hok
       have hw : (isEnumWith W c m = true ∧ reachable W c = true) ∧ c.module ≠ builtinsMod := by
         simpa [wf] using hwf
       refine ⟨?_, hw.1.2, Or.inl hw.2⟩
-      cases hc : c.path with
-      | nil => simp [hc] at hp
-      | cons a r =>
-        cases r with
-        | nil => simp [enumNames, lastName, hc]
-        | cons _ _ => simp [hc] at hp
+      rcases hp with hp | hp
+      · simp [enumNames, hp]
+      · cases hc : c.path with
+        | nil => simp [hc] at hp
+        | cons a r =>
+          cases r with
+          | nil => simp [enumNames, lastName, hc]
+          | cons _ _ => simp [hc] at hp
   | .list xs => fun hwf hok pc h => by
       simp only [render, PyExpr.refs] at h
-      exact refs_goodL W xs (by simpa [wf] using hwf) (by simpa [valOK] using hok) pc h
-  | .tuple xs => fun _ hok pc h => by
-      have : xs = [] := by simpa [valOK] using hok
-      subst this
-      simp [render, renderL, PyExpr.refs, refsL] at h
+      exact refs_goodL cfg W xs (by simpa [wf] using hwf) (by simpa [valOK] using hok) pc h
+  | .tuple xs => fun hwf hok pc h => by
+      have hok' : (cfg.tupleFix = true ∨ xs = []) ∧ valOKL cfg W xs = true := by simpa [valOK] using hok
+      simp only [render, PyExpr.refs] at h
+      exact refs_goodL cfg W xs (by simpa [wf] using hwf) hok'.2 pc h
   | .dict kvs => fun hwf hok pc h => by
       simp only [render, PyExpr.refs] at h
-      exact refs_goodKV W kvs (by simpa [wf] using hwf) (by simpa [valOK] using hok) pc h
+      exact refs_goodKV cfg W kvs (by simpa [wf] using hwf) (by simpa [valOK] using hok) pc h
   | .model c attrs => fun hwf hok pc h => by
       simp only [wf, Bool.and_eq_true] at hwf
       obtain ⟨⟨⟨_, hreach⟩, hmod⟩, hwfL⟩ := hwf
@@ -640,55 +651,55 @@ theorem refs_good (W : World) : (v : Val) → RefsGood W v
       rcases h with h | h
       · subst h
         exact ⟨rfl, hreach, Or.inl (by simpa using hmod)⟩
-      · obtain ⟨a, ha, hp⟩ := mem_refsKw_select W _ attrs pc h
-        exact refs_goodA W attrs a ha (wfL_mem hwfL ha) (valOKL_mem hok.2 ha) pc hp
-theorem refs_goodA (W : World) : (xs : List Val) → ∀ a ∈ xs, RefsGood W a
+      · obtain ⟨a, ha, hp⟩ := mem_refsKw_select cfg W _ attrs pc h
+        exact refs_goodA cfg W attrs a ha (wfL_mem hwfL ha) (valOKL_mem hok.2 ha) pc hp
+theorem refs_goodA (cfg : Cfg) (W : World) : (xs : List Val) → ∀ a ∈ xs, RefsGood cfg W a
   | [], _, h => by cases h
   | x :: xs, a, h => by
       cases h with
-      | head => exact refs_good W x
-      | tail _ h' => exact refs_goodA W xs a h'
-theorem refs_goodL (W : World) : (xs : List Val) → wfL W xs = true → valOKL W xs = true →
-    ∀ pc ∈ refsL (renderL W xs), RefGood W pc
+      | head => exact refs_good cfg W x
+      | tail _ h' => exact refs_goodA cfg W xs a h'
+theorem refs_goodL (cfg : Cfg) (W : World) : (xs : List Val) → wfL W xs = true → valOKL cfg W xs = true →
+    ∀ pc ∈ refsL cfg (renderL W xs), RefGood W pc
   | [], _, _, pc, h => by simp [renderL, refsL] at h
   | x :: xs, hwf, hok, pc, h => by
       have hwf' : wf W x = true ∧ wfL W xs = true := by simpa [wfL] using hwf
-      have hok' : valOK W x = true ∧ valOKL W xs = true := by simpa [valOKL] using hok
+      have hok' : valOK cfg W x = true ∧ valOKL cfg W xs = true := by simpa [valOKL] using hok
       simp only [renderL, refsL, List.mem_append] at h
       rcases h with h | h
-      · exact refs_good W x hwf'.1 hok'.1 pc h
-      · exact refs_goodL W xs hwf'.2 hok'.2 pc h
-theorem refs_goodKV (W : World) : (kvs : List (Val × Val)) → wfKV W kvs = true → valOKKV W kvs = true →
-    ∀ pc ∈ refsKV (renderKV W kvs), RefGood W pc
+      · exact refs_good cfg W x hwf'.1 hok'.1 pc h
+      · exact refs_goodL cfg W xs hwf'.2 hok'.2 pc h
+theorem refs_goodKV (cfg : Cfg) (W : World) : (kvs : List (Val × Val)) → wfKV W kvs = true → valOKKV cfg W kvs = true →
+    ∀ pc ∈ refsKV cfg (renderKV W kvs), RefGood W pc
   | [], _, _, pc, h => by simp [renderKV, refsKV] at h
   | (k, v) :: r, hwf, hok, pc, h => by
       have hwf' : (wf W k = true ∧ wf W v = true) ∧ wfKV W r = true := by simpa [wfKV] using hwf
-      have hok' : ((hashable k = true ∧ valOK W k = true) ∧ valOK W v = true) ∧ valOKKV W r = true := by
+      have hok' : ((hashable k = true ∧ valOK cfg W k = true) ∧ valOK cfg W v = true) ∧ valOKKV cfg W r = true := by
         simpa [valOKKV] using hok
       simp only [renderKV, refsKV, List.mem_append] at h
       rcases h with (h | h) | h
-      · exact refs_good W k hwf'.1.1 hok'.1.1.2 pc h
-      · exact refs_good W v hwf'.1.2 hok'.1.2 pc h
-      · exact refs_goodKV W r hwf'.2 hok'.2 pc h
+      · exact refs_good cfg W k hwf'.1.1 hok'.1.1.2 pc h
+      · exact refs_good cfg W v hwf'.1.2 hok'.1.2 pc h
+      · exact refs_goodKV cfg W r hwf'.2 hok'.2 pc h
 end
 
 
 /-! ### no string literal of the source needs decoding the model does not cover -/
 
-theorem riskKw_select (W : World) : ∀ (fs : List FieldSpec) (as : List Val),
-    (∀ a ∈ as, (render W a).syntaxRisk = false) → riskKw (selectKw fs as (renderL W as)) = false
+theorem riskKw_select (cfg : Cfg) (W : World) : ∀ (fs : List FieldSpec) (as : List Val),
+    (∀ a ∈ as, (render W a).syntaxRisk cfg = false) → riskKw cfg (selectKw fs as (renderL W as)) = false
   | [], as, _ => by cases as <;> simp [selectKw, riskKw]
   | f :: fs, [], _ => by simp [selectKw, riskKw]
   | f :: fs, a :: as, h => by
       have ha := h a (by simp)
-      have hr := riskKw_select W fs as (fun x hx => h x (by simp [hx]))
+      have hr := riskKw_select cfg W fs as (fun x hx => h x (by simp [hx]))
       simp only [selectKw, renderL]
       split <;> simp [riskKw, ha, hr]
 
-def NoRisk (W : World) (v : Val) : Prop := valOK W v = true → (render W v).syntaxRisk = false
+def NoRisk (cfg : Cfg) (W : World) (v : Val) : Prop := valOK cfg W v = true → (render W v).syntaxRisk cfg = false
 
 mutual
-theorem no_risk (W : World) : (v : Val) → NoRisk W v
+theorem no_risk (cfg : Cfg) (W : World) : (v : Val) → NoRisk cfg W v
   | .none => fun _ => by simp [render, PyExpr.syntaxRisk]
   | .bool _ => fun _ => by simp [render, PyExpr.syntaxRisk]
   | .int _ => fun _ => by simp [render, PyExpr.syntaxRisk]
@@ -697,47 +708,49 @@ theorem no_risk (W : World) : (v : Val) → NoRisk W v
   | .float n _ => fun _ => by cases hf : n.isFin <;> simp [render, hf, PyExpr.syntaxRisk]
   | .opaque _ _ _ _ => fun _ => by simp [render, PyExpr.syntaxRisk]
   | .enum _ _ => fun _ => by simp [render, PyExpr.syntaxRisk]
-  | .qname t => fun hok => by
-      have hp : plainDq t = true := by simpa [valOK] using hok
-      simp [render, PyExpr.syntaxRisk, decodeDq_plain t hp]
+  | .qname t r => fun hok => by
+      cases hq : cfg.qnameFix
+      · have hp : plainDq t = true := by simpa [valOK, hq] using hok
+        simp [render, PyExpr.syntaxRisk, decodeDq_plain t hp]
+      · simp [render, PyExpr.syntaxRisk, hq]
   | .list xs => fun hok => by
       simp only [render, PyExpr.syntaxRisk]
-      exact no_riskL W xs (by simpa [valOK] using hok)
+      exact no_riskL cfg W xs (by simpa [valOK] using hok)
   | .tuple xs => fun hok => by
-      have : xs = [] := by simpa [valOK] using hok
-      subst this
-      simp [render, renderL, PyExpr.syntaxRisk, riskL]
+      have hok' : (cfg.tupleFix = true ∨ xs = []) ∧ valOKL cfg W xs = true := by simpa [valOK] using hok
+      simp only [render, PyExpr.syntaxRisk]
+      exact no_riskL cfg W xs hok'.2
   | .dict kvs => fun hok => by
       simp only [render, PyExpr.syntaxRisk]
-      exact no_riskKV W kvs (by simpa [valOK] using hok)
+      exact no_riskKV cfg W kvs (by simpa [valOK] using hok)
   | .model c attrs => fun hok => by
       simp only [valOK, Bool.and_eq_true] at hok
       simp only [render, PyExpr.syntaxRisk]
-      exact riskKw_select W _ attrs (fun a ha => no_riskA W attrs a ha (valOKL_mem hok.2 ha))
-theorem no_riskA (W : World) : (xs : List Val) → ∀ a ∈ xs, NoRisk W a
+      exact riskKw_select cfg W _ attrs (fun a ha => no_riskA cfg W attrs a ha (valOKL_mem hok.2 ha))
+theorem no_riskA (cfg : Cfg) (W : World) : (xs : List Val) → ∀ a ∈ xs, NoRisk cfg W a
   | [], _, h => by cases h
   | x :: xs, a, h => by
       cases h with
-      | head => exact no_risk W x
-      | tail _ h' => exact no_riskA W xs a h'
-theorem no_riskL (W : World) : (xs : List Val) → valOKL W xs = true → riskL (renderL W xs) = false
+      | head => exact no_risk cfg W x
+      | tail _ h' => exact no_riskA cfg W xs a h'
+theorem no_riskL (cfg : Cfg) (W : World) : (xs : List Val) → valOKL cfg W xs = true → riskL cfg (renderL W xs) = false
   | [], _ => by simp [renderL, riskL]
   | x :: xs, hok => by
-      have hok' : valOK W x = true ∧ valOKL W xs = true := by simpa [valOKL] using hok
-      simp [renderL, riskL, no_risk W x hok'.1, no_riskL W xs hok'.2]
-theorem no_riskKV (W : World) : (kvs : List (Val × Val)) → valOKKV W kvs = true → riskKV (renderKV W kvs) = false
+      have hok' : valOK cfg W x = true ∧ valOKL cfg W xs = true := by simpa [valOKL] using hok
+      simp [renderL, riskL, no_risk cfg W x hok'.1, no_riskL cfg W xs hok'.2]
+theorem no_riskKV (cfg : Cfg) (W : World) : (kvs : List (Val × Val)) → valOKKV cfg W kvs = true → riskKV cfg (renderKV W kvs) = false
   | [], _ => by simp [renderKV, riskKV]
   | (k, v) :: r, hok => by
-      have hok' : ((hashable k = true ∧ valOK W k = true) ∧ valOK W v = true) ∧ valOKKV W r = true := by
+      have hok' : ((hashable k = true ∧ valOK cfg W k = true) ∧ valOK cfg W v = true) ∧ valOKKV cfg W r = true := by
         simpa [valOKKV] using hok
-      simp [renderKV, riskKV, no_risk W k hok'.1.1.2, no_risk W v hok'.1.2, no_riskKV W r hok'.2]
+      simp [renderKV, riskKV, no_risk cfg W k hok'.1.1.2, no_risk cfg W v hok'.1.2, no_riskKV cfg W r hok'.2]
 end
 
 
 /-! ### `valOK` = the property's domain minus the three value-level defects -/
 
 mutual
-theorem valOK_of_dom_clean (W : World) : (v : Val) → domOK W v = true → clean v = true → valOK W v = true
+theorem valOK_of_dom_clean (cfg : Cfg) (W : World) : (v : Val) → domOK W v = true → clean cfg v = true → valOK cfg W v = true
   | .none, _, _ => by simp [valOK]
   | .bool _, _, _ => by simp [valOK]
   | .int _, _, _ => by simp [valOK]
@@ -746,33 +759,66 @@ theorem valOK_of_dom_clean (W : World) : (v : Val) → domOK W v = true → clea
   | .float _ _, hd, _ => by simpa [valOK, domOK] using hd
   | .opaque _ _ _ _, hd, _ => by simpa [valOK, domOK] using hd
   | .enum _ _, _, hc => by simpa [valOK, clean] using hc
-  | .qname _, _, hc => by simpa [valOK, clean] using hc
-  | .tuple _, _, hc => by simpa [valOK, clean] using hc
+  | .qname _ _, _, hc => by simpa [valOK, clean] using hc
+  | .tuple xs, hd, hc => by
+      have hc' : (cfg.tupleFix = true ∨ xs = []) ∧ cleanL cfg xs = true := by simpa [clean] using hc
+      have := valOKL_of_dom_clean cfg W xs (by simpa [domOK] using hd) hc'.2
+      simp only [valOK, Bool.and_eq_true, Bool.or_eq_true, List.isEmpty_iff]
+      exact ⟨hc'.1, this⟩
   | .list xs, hd, hc => by
       simp only [valOK]
-      exact valOKL_of_dom_clean W xs (by simpa [domOK] using hd) (by simpa [clean] using hc)
+      exact valOKL_of_dom_clean cfg W xs (by simpa [domOK] using hd) (by simpa [clean] using hc)
   | .dict kvs, hd, hc => by
       simp only [valOK]
-      exact valOKKV_of_dom_clean W kvs (by simpa [domOK] using hd) (by simpa [clean] using hc)
+      exact valOKKV_of_dom_clean cfg W kvs (by simpa [domOK] using hd) (by simpa [clean] using hc)
   | .model c attrs, hd, hc => by
       simp only [domOK, Bool.and_eq_true] at hd
       simp only [valOK, Bool.and_eq_true]
-      exact ⟨hd.1, valOKL_of_dom_clean W attrs hd.2 (by simpa [clean] using hc)⟩
-theorem valOKL_of_dom_clean (W : World) : (xs : List Val) → domOKL W xs = true → cleanL xs = true → valOKL W xs = true
+      exact ⟨hd.1, valOKL_of_dom_clean cfg W attrs hd.2 (by simpa [clean] using hc)⟩
+theorem valOKL_of_dom_clean (cfg : Cfg) (W : World) : (xs : List Val) → domOKL W xs = true → cleanL cfg xs = true → valOKL cfg W xs = true
   | [], _, _ => by simp [valOKL]
   | x :: xs, hd, hc => by
       have hd' : domOK W x = true ∧ domOKL W xs = true := by simpa [domOKL] using hd
-      have hc' : clean x = true ∧ cleanL xs = true := by simpa [cleanL] using hc
-      simp [valOKL, valOK_of_dom_clean W x hd'.1 hc'.1, valOKL_of_dom_clean W xs hd'.2 hc'.2]
-theorem valOKKV_of_dom_clean (W : World) : (kvs : List (Val × Val)) → domOKKV W kvs = true → cleanKV kvs = true →
-    valOKKV W kvs = true
+      have hc' : clean cfg x = true ∧ cleanL cfg xs = true := by simpa [cleanL] using hc
+      simp [valOKL, valOK_of_dom_clean cfg W x hd'.1 hc'.1, valOKL_of_dom_clean cfg W xs hd'.2 hc'.2]
+theorem valOKKV_of_dom_clean (cfg : Cfg) (W : World) : (kvs : List (Val × Val)) → domOKKV W kvs = true → cleanKV cfg kvs = true →
+    valOKKV cfg W kvs = true
   | [], _, _ => by simp [valOKKV]
   | (k, v) :: r, hd, hc => by
       have hd' : ((hashable k = true ∧ domOK W k = true) ∧ domOK W v = true) ∧ domOKKV W r = true := by
         simpa [domOKKV] using hd
-      have hc' : (clean k = true ∧ clean v = true) ∧ cleanKV r = true := by simpa [cleanKV] using hc
-      simp [valOKKV, hd'.1.1.1, valOK_of_dom_clean W k hd'.1.1.2 hc'.1.1, valOK_of_dom_clean W v hd'.1.2 hc'.1.2,
-        valOKKV_of_dom_clean W r hd'.2 hc'.2]
+      have hc' : (clean cfg k = true ∧ clean cfg v = true) ∧ cleanKV cfg r = true := by simpa [cleanKV] using hc
+      simp [valOKKV, hd'.1.1.1, valOK_of_dom_clean cfg W k hd'.1.1.2 hc'.1.1, valOK_of_dom_clean cfg W v hd'.1.2 hc'.1.2,
+        valOKKV_of_dom_clean cfg W r hd'.2 hc'.2]
+end
+
+
+/-! ### with the three repairs nothing value-level is excluded -/
+
+mutual
+theorem clean_patched : (v : Val) → clean Cfg.patched v = true
+  | .none => by simp [clean]
+  | .bool _ => by simp [clean]
+  | .int _ => by simp [clean]
+  | .float _ _ => by simp [clean]
+  | .str _ _ => by simp [clean]
+  | .bytes _ _ => by simp [clean]
+  | .qname _ _ => by simp [clean, Cfg.patched]
+  | .opaque _ _ _ _ => by simp [clean]
+  | .enum _ _ => by simp [clean, Cfg.patched]
+  | .list xs => by simp only [clean]; exact cleanL_patched xs
+  | .tuple xs => by
+      have := cleanL_patched xs
+      simp only [clean, Bool.and_eq_true, Bool.or_eq_true]
+      exact ⟨Or.inl rfl, this⟩
+  | .dict kvs => by simp only [clean]; exact cleanKV_patched kvs
+  | .model _ attrs => by simp only [clean]; exact cleanL_patched attrs
+theorem cleanL_patched : (xs : List Val) → cleanL Cfg.patched xs = true
+  | [] => by simp [cleanL]
+  | x :: xs => by simp [cleanL, clean_patched x, cleanL_patched xs]
+theorem cleanKV_patched : (kvs : List (Val × Val)) → cleanKV Cfg.patched kvs = true
+  | [] => by simp [cleanKV]
+  | (k, v) :: r => by simp [cleanKV, clean_patched k, clean_patched v, cleanKV_patched r]
 end
 
 end Xs.Code
